@@ -7,4 +7,6 @@ require (
 	pgregory.net/rapid v1.3.0
 )
 
+require golang.org/x/exp v0.0.0-20241009180824-f66d83c29e7c // indirect
+
 replace github.com/magisterquis/curlrevshell => /repo
